@@ -1421,7 +1421,7 @@ func (p *Parser) parseCase() ast.Expression {
 	// Handle alias
 	if p.currentIs(token.AS) {
 		p.nextToken()
-		if p.currentIs(token.IDENT) {
+		if p.currentIs(token.IDENT) || p.current.Token.IsKeyword() {
 			expr.Alias = p.current.Value
 			expr.QuotedAlias = p.current.Quoted
 			p.nextToken()
